@@ -300,10 +300,9 @@ Qed.
 
 Lemma discard_line_len : forall b s, (length (fst (discard_line b s)) <= length s)%nat.
 Proof.
-  intros b s. unfold discard_line. destruct b; [cbn; lia|].
-  destruct (take_while not_eol s) as [[t r]|] eqn:E; [|cbn; lia].
-  apply take_while_len in E. pose proof (dec_crlf_len r (length r) (le_n _)) as H.
-  destruct (dec_crlf r); cbn [fst dlen length] in *; lia.
+  intros b s. unfold discard_line, line_tail_rev. destruct b; [cbn; lia|].
+  destruct (take_while not_lf s) as [[t r]|] eqn:E; [|cbn; lia].
+  apply take_while_len in E. destruct r; cbn [fst length] in *; lia.
 Qed.
 
 (* ---------------------------------------------------------------- *)
